@@ -192,8 +192,53 @@ func c12BuildSyntax(rng *rand.Rand) *c12Built {
 
 var stderrLineRe = regexp.MustCompile(`^(syntax|runtime) error on line (\d+): `)
 
+// c12Selector: a runtime fault inside a -r selector; the reported position refers to the selector text
+func c12Selector(c *Case) {
+	rng := c.Rng
+	var cands []faultKind
+	for _, f := range c11Faults() {
+		if f.selfCont && f.stmtOnly == nil {
+			cands = append(cands, f)
+		}
+	}
+	fk := cands[rng.IntN(len(cands))]
+	f := fk.mk()
+	var e Expr = f
+	switch rng.IntN(4) {
+	case 0:
+		e = Bin("+", N("1"), f)
+	case 1:
+		e = Arr(S("é日本"), f)
+	case 2:
+		e = CallE(V("json"), Arr(f))
+	}
+	rd := RenderExpr(e, ParenMinimal, nil)
+	if !forceOneLine(rd, e) {
+		return
+	}
+	text, _ := rd.Layout(rng)
+	s0, e0, _ := rd.Span(f)
+	lib := RunLib("BEGIN { print 'b' } { print $ }", []InFile{{Name: "in.json", Data: []byte(`{"a": 1}`)}}, []string{text}, RunOpts{})
+	if lib.Class != "runtime" {
+		c.Inconclusive("fault-not-reported-as-runtime")
+		return
+	}
+	c.Count("selector_faults")
+	c.NonTrivial("sel:" + text)
+	why := checkPos(text, lib.Line, lib.Col, lib.SrcLine, &posExpect{class: "runtime", level2: true, start: s0, end: e0})
+	if why == "" {
+		c.Held()
+	} else {
+		c.Violation(fmt.Sprintf("fault %s in a -r selector: %s (reported line %d col %d) | selector %q", fk.name, why, lib.Line, lib.Col, text), nil, map[string]any{"selector": text})
+	}
+}
+
 func c12Run(c *Case) {
 	rng := c.Rng
+	if c.Idx%12 == 7 {
+		c12Selector(c)
+		return
+	}
 	var b *c12Built
 	if rng.IntN(2) == 0 {
 		b = c12BuildRuntime(rng)
